@@ -185,7 +185,7 @@ def run_cases(name, preamble, cases, chunk=400, timeout=900):
         fn = os.path.join(CASES, "%s_%d.v" % (name, k))
         with open(fn, "w") as f:
             f.write(preamble)
-            f.write("\nDefinition the_cases := [\n" + ";\n".join(ch) + "\n].\n")
+            f.write("\nDefinition the_cases : list case := [\n" + ";\n".join(ch) + "\n].\n")
             f.write("Definition bad_idx := map fst (filter (fun ic => negb (check (snd ic))) "
                     "(combine (seq 0 (length the_cases)) the_cases)).\n")
             f.write("Eval vm_compute in (length the_cases, bad_idx).\n")
